@@ -7,7 +7,7 @@
 // NOTE tools/vlib.build_harness does not hash this header: bump TREEDYN_GEN_VERSION here AND in every Cnn.cpp.
 #ifndef VERIF_TREEDYN_GEN_H
 #define VERIF_TREEDYN_GEN_H
-#define TREEDYN_GEN_VERSION 7
+#define TREEDYN_GEN_VERSION 8
 #include "Simbody.h"
 #include "hcommon.h"
 #include <memory>
@@ -36,6 +36,8 @@ struct TreeCase {
     std::unique_ptr<MultibodySystem> sys;
     std::unique_ptr<SimbodyMatterSubsystem> matter;
     std::unique_ptr<GeneralForceSubsystem> forces;
+    Force::DiscreteForces discrete;          // lets realize(Acceleration) see given mobility / body forces
+    bool zeroU = false;
     std::vector<MobilizedBody> mobods;       // [0] = Ground
     std::vector<int> type; std::vector<std::string> tag;
     State state; int nb = 0, nu = 0; bool euler = false; std::string shape;
@@ -143,13 +145,14 @@ inline std::unique_ptr<TreeCase> buildCase(uint64_t caseSeed, const Options& opt
         nuSoFar += dofOf[t];
     }
     c.nb = nb;
+    c.discrete = Force::DiscreteForces(*c.forces, *c.matter);
     c.sys->realizeTopology();
     c.state = c.sys->getDefaultState();
     c.matter->setUseEulerAngles(c.state, c.euler);
     c.sys->realizeModel(c.state);
     c.nu = c.state.getNU();
     for (int i = 1; i <= nb; ++i) setRandomQ(c, i);
-    const bool zeroU = g.unit() < opt.zeroUProb;
+    const bool zeroU = g.unit() < opt.zeroUProb; c.zeroU = zeroU;
     Vector u(c.nu);
     for (int k = 0; k < c.nu; ++k) u[k] = zeroU ? 0.0 : g.range(-1, 1);
     c.state.updU() = u;
